@@ -42,7 +42,7 @@ let () = iter_lines (fun line ->
       let hz = match r with
         | TjOk (x1, _, w1, _) when iz w1 <> sw ->
           let m = zi (8 * iz num / iz den) in
-          (match derive_config gen_scale_chain gen_DCTSIZE (zi w) (zi h) zcomps m (zi 8) (not fu) ycc3 (ycc3 && not grayout) grayout with
+          (match derive_config gen_scale_chain gen_DCTSIZE (zi w) (zi h) zcomps m (zi 8) (not fu) ycc3 (ycc3 && not grayout) grayout gen_fix_h1 gen_fix_h2 gen_fix_h4 gen_fix_h6 with
            | Some k ->
              (match crop_scanline k.k_ow (crop_align (nc = 1) k.k_M k.k_hmax) x1 w1 with
               | CropOk (_, w', _, _) -> if crop_reinit_hazard gen_DCTSIZE (zi w) zcomps k w' && not gen_crop_merged_guard then 5 else 0
@@ -66,7 +66,7 @@ let () = iter_lines (fun line ->
       let grayout = ycc3 && ocs = 3 in
       let rgbout = ycc3 && (ocs = 0 || ocs = 1 || ocs = 2) in
       ignore prec;
-      match derive_config gen_scale_chain gen_DCTSIZE (zi w) (zi h) zcomps (zi m) (zi 8) fancy ycc3 rgbout grayout with
+      match derive_config gen_scale_chain gen_DCTSIZE (zi w) (zi h) zcomps (zi m) (zi 8) fancy ycc3 rgbout grayout gen_fix_h1 gen_fix_h2 gen_fix_h4 gen_fix_h6 with
       | None -> print_endline "err"
       | Some k when k.k_bad -> print_endline "err"
       | Some k ->
